@@ -716,6 +716,87 @@ pub fn c19_references() {
         check!(!matches!(again, Err(ExecutionError::UndeclaredReference(_))), "with every reported name defined, execution does not fail with an undeclared reference");
     }
 }
+/// Index `a[b]` and membership `a in b` over values of every kind (C14 access half, C02: no panic).
+pub fn c14_access() {
+    use cel_interpreter::objects::{Key, Map};
+    let (op, lk, rk): (u8, u8, u8) = (any(), any(), any());
+    let (p0, p1): (i64, i64) = (any(), any());
+    crate::sym::assume(op <= 1 && lk <= 7 && rk <= 7);
+    let mk = |kind: u8, p: i64| -> Option<Value> {
+        Some(match kind {
+            0 => return None, // an operand that fails
+            1 => Value::Int(p),
+            2 => Value::UInt(p as u64),
+            3 => Value::Bool(p & 1 == 1),
+            4 => Value::Null,
+            5 => Value::String(Arc::new(if p & 1 == 0 { "héllo".to_string() } else { "l".to_string() })),
+            6 => Value::List(Arc::new(vec![Value::Int(10), Value::UInt(11)])),
+            _ => {
+                let mut m = std::collections::HashMap::new();
+                m.insert(Key::Int(1), Value::Int(100));
+                m.insert(Key::Uint(2), Value::Int(200));
+                m.insert(Key::Bool(true), Value::Int(300));
+                m.insert(Key::String(Arc::new("l".to_string())), Value::Int(400));
+                Value::Map(Map { map: Arc::new(m) })
+            }
+        })
+    };
+    let (l, r) = (mk(lk, p0), mk(rk, p1));
+    let mut ctx = Context::default();
+    if let Some(v) = &l {
+        ctx.add_variable_from_value("a", v.clone());
+    }
+    if let Some(v) = &r {
+        ctx.add_variable_from_value("b", v.clone());
+    }
+    let src = if op == 0 { "a[b]" } else { "a in b" };
+    let got = Program::compile(src).expect("compiles").execute(&ctx);
+    let undeclared = |n: &str| matches!(&got, Err(ExecutionError::UndeclaredReference(x)) if x.as_str() == n);
+    let (l, r) = match (l, r) {
+        (None, _) => {
+            check!(undeclared("a"), "a failing left operand is the result");
+            return;
+        }
+        (Some(_), None) => {
+            check!(undeclared("b"), "a failing right operand is the result");
+            return;
+        }
+        (Some(l), Some(r)) => (l, r),
+    };
+    let key_of = |v: &Value| -> Option<Key> {
+        match v {
+            Value::Int(i) => Some(Key::Int(*i)),
+            Value::UInt(u) => Some(Key::Uint(*u)),
+            Value::Bool(b) => Some(Key::Bool(*b)),
+            Value::String(s) => Some(Key::String(s.clone())),
+            _ => None,
+        }
+    };
+    let want: Option<Value> = if op == 0 {
+        match (&l, &r) {
+            (Value::List(items), Value::Int(i)) => Some(if *i >= 0 { items.get(*i as usize).cloned().unwrap_or(Value::Null) } else { Value::Null }),
+            (Value::String(s), Value::Int(i)) => Some(
+                usize::try_from(*i).ok().and_then(|a| a.checked_add(1).and_then(|b| s.get(a..b))).map(|t| Value::String(Arc::new(t.to_string()))).unwrap_or(Value::Null),
+            ),
+            (Value::Map(m), k) => key_of(k).map(|k| m.get(&k).cloned().unwrap_or(Value::Null)),
+            _ => None,
+        }
+    } else {
+        match (&l, &r) {
+            (Value::String(x), Value::String(y)) => Some(Value::Bool(y.contains(x.as_str()))),
+            (x, Value::List(items)) => Some(Value::Bool(items.iter().any(|e| e == x))),
+            (x, Value::Map(m)) => Some(Value::Bool(key_of(x).map(|k| m.get(&k).is_some()).unwrap_or(false))),
+            _ => None,
+        }
+    };
+    match want {
+        Some(v) => check!(got == Ok(v), "index / membership gives the specified value (null out of range, int/uint twin keys are one key)"),
+        None => check!(got.is_err(), "index / membership on unsupported kinds is an execution error, never a panic"),
+    }
+}
+pub fn c02_access() {
+    c14_access()
+}
 pub fn c14_literal() {
     c07_literal()
 }
@@ -770,6 +851,8 @@ crate::replay_only! {
     #[kani::unwind(2)] c07_literal: "off", "list / map literal over logging host functions through Program::compile + execute", "0-3 elements or entries, every failing position";
     #[kani::unwind(2)] c10_macro: "off", "all/exists/exists_one/map/map-with-filter/filter over a list of booleans with a logging predicate, through Program::compile + execute", "lists of 0-3 booleans, all contents";
     #[kani::unwind(2)] c19_references: "off", "Program::references vs execution with an undeclared variable / function in one of ten syntactic positions", "ten positions x {variable, function}";
+    #[kani::unwind(2)] c14_access: "off", "`a[b]` and `a in b` through Program::compile + execute on variables of every kind", "8 x 8 operand kinds incl. a non-ASCII string, a two-element list, a map with int/uint/bool/string keys";
+    #[kani::unwind(2)] c02_access: "off", "same body (C02)", "same";
     #[kani::unwind(2)] c14_literal: "off", "same body (C14)", "same";
     #[kani::unwind(2)] c07_extractor_eval: "off", "same body (C07)", "same";
     #[kani::unwind(2)] c08_unary_minus: "off", "Program::compile + Value::resolve NEGATE arm", "i: all i64";
